@@ -1,7 +1,7 @@
 (* C14 — the oracle of Oracle.v accepts every run that is step-wise the cursor's. *)
 From Coq Require Import ZArith NArith List Bool Arith Lia.
 From Falcon.lib Require Import PyStr.
-From Falcon.C14 Require Import Spec Oracle Model ProofsDefs ProofsSync.
+From Falcon.C14 Require Import Spec Oracle Model ModelAsync ProofsDefs ProofsSync ProofsAsync.
 Import ListNotations.
 Local Open Scope nat_scope.
 
@@ -51,4 +51,21 @@ Proof.
   intros cs maxlen data sched ops Hcs Hb. unfold oracle.
   rewrite (refine_history_basic cs maxlen data sched ops Hcs Hb).
   apply first_bad_sync_results.
+Qed.
+
+Lemma first_bad_async_ok : forall impl spec i,
+  Forall2 obs_ok impl spec -> first_bad i false impl spec = None.
+Proof.
+  intros impl spec i H. revert i. induction H as [|a s impl spec Hok _ IH]; intro i; simpl; [reflexivity|].
+  destruct Hok as (Hr & Ht & He). unfold obs_okb. rewrite Hr, result_eqb_refl, Ht, Nat.eqb_refl. simpl.
+  destruct (o_end a) eqn:Ea; simpl; [rewrite (He eq_refl); simpl|]; apply IH.
+Qed.
+
+Lemma oracle_sound_async_basic : forall cs F chunks ops,
+  0 < cs -> length chunks + 3 <= F -> forallb basic_op ops = true ->
+  oracle false cs (length (concat chunks)) (concat chunks) (flat ops)
+         (async_history cs true F chunks (flat ops)) = None.
+Proof.
+  intros cs F chunks ops Hcs HF Hb. unfold oracle.
+  apply first_bad_async_ok. apply a_refine_history_basic; assumption.
 Qed.
